@@ -15,7 +15,9 @@ import SciVerif.Lemmas.Components
   empty trailing part at exact multiples and for the empty file).
 * `c19_scanlines_roundtrip`: for LF-terminated, CR-free input, rendering the scanned lines gives the
   input back, so the parts' bytes concatenate to the input file.
-* `c19_concat`: `Concatenator` output is each input followed by LF, in arrival order.
+* `c19_concat`: `Concatenator` output is each input followed by LF, in arrival order;
+  `c19_concat_grouped`: with `GroupByTag` the Go loop (one file per step, group outputs created on first use)
+  puts every file whole into the output of its own group and nowhere else, in arrival order.
 -/
 namespace SciVerif.Comp
 
@@ -165,6 +167,98 @@ theorem c19_concat (contents : List (List Nat)) :
     concatFiles contents = (contents.map (· ++ [10])).flatten := by
   simp [concatFiles, List.flatMap]
 
+theorem lookup_addTo_same (gs : List (Nat × List Nat)) (t : Nat) (b : List Nat) :
+    (addTo gs t b).lookup t = some (((gs.lookup t).getD []) ++ b) := by
+  induction gs with
+  | nil => simp [addTo, List.lookup]
+  | cons x xs ih =>
+    obtain ⟨t', acc⟩ := x
+    simp only [addTo]
+    by_cases h : t' = t
+    · subst h; simp [List.lookup]
+    · have h' : (t == t') = false := by simp; exact fun e => h e.symm
+      simp [h, List.lookup, h', ih]
+
+theorem lookup_addTo_other (gs : List (Nat × List Nat)) (t t2 : Nat) (b : List Nat) (hne : t2 ≠ t) :
+    (addTo gs t b).lookup t2 = gs.lookup t2 := by
+  induction gs with
+  | nil =>
+    have : (t2 == t) = false := by simp [hne]
+    simp [addTo, List.lookup, this]
+  | cons x xs ih =>
+    obtain ⟨t', acc⟩ := x
+    simp only [addTo]
+    by_cases h : t' = t
+    · subst h
+      have : (t2 == t') = false := by simp [hne]
+      simp [List.lookup, this]
+    · simp only [h, if_false, List.lookup]
+      split <;> simp_all
+
+theorem ofGroup_cons_eq (g : Option Nat) (c : List Nat) (fs : List (Option Nat × List Nat)) :
+    ofGroup ((g, c) :: fs) g = c :: ofGroup fs g := by
+  simp [ofGroup, List.filter_cons]
+
+theorem ofGroup_cons_ne (g g' : Option Nat) (c : List Nat) (fs : List (Option Nat × List Nat)) (h : g' ≠ g) :
+    ofGroup ((g', c) :: fs) g = ofGroup fs g := by
+  have : (g' == g) = false := by simp [h]
+  simp [ofGroup, List.filter_cons, this]
+
+theorem concatFiles_cons (c : List Nat) (cs : List (List Nat)) : concatFiles (c :: cs) = (c ++ [10]) ++ concatFiles cs := by
+  simp [concatFiles]
+
+theorem concatLoop_spec (fs : List (Option Nat × List Nat)) :
+    ∀ (m : List Nat) (gs : List (Nat × List Nat)),
+      (concatLoop fs (m, gs)).1 = m ++ concatFiles (ofGroup fs none) ∧
+      ∀ t, (concatLoop fs (m, gs)).2.lookup t =
+        if ofGroup fs (some t) = [] then gs.lookup t
+        else some (((gs.lookup t).getD []) ++ concatFiles (ofGroup fs (some t))) := by
+  induction fs with
+  | nil => intro m gs; simp [concatLoop, ofGroup, concatFiles]
+  | cons f fs ih =>
+    intro m gs
+    obtain ⟨tg, c⟩ := f
+    cases tg with
+    | none =>
+      simp only [concatLoop]
+      obtain ⟨h1, h2⟩ := ih (m ++ (c ++ [10])) gs
+      refine ⟨?_, ?_⟩
+      · rw [h1, ofGroup_cons_eq, concatFiles_cons]; simp [List.append_assoc]
+      · intro t
+        rw [h2 t, ofGroup_cons_ne (some t) none c fs (by simp)]
+    | some t0 =>
+      simp only [concatLoop]
+      obtain ⟨h1, h2⟩ := ih m (addTo gs t0 (c ++ [10]))
+      refine ⟨?_, ?_⟩
+      · rw [h1, ofGroup_cons_ne none (some t0) c fs (by simp)]
+      · intro t
+        rw [h2 t]
+        by_cases ht : t = t0
+        · subst ht
+          rw [lookup_addTo_same, ofGroup_cons_eq, concatFiles_cons]
+          by_cases he : ofGroup fs (some t) = []
+          · rw [if_pos he, if_neg (by simp), he]
+            simp [concatFiles]
+          · rw [if_neg he, if_neg (by simp)]
+            simp [List.append_assoc]
+        · rw [lookup_addTo_other _ _ _ _ ht, ofGroup_cons_ne (some t) (some t0) c fs (by simp; exact fun e => ht e.symm)]
+
+/-- `Concatenator` with `GroupByTag`: the main output holds exactly the untagged files, each followed by LF, in
+arrival order; the output of a tag value exists iff some file carries it and holds exactly that group's files in
+arrival order — every file goes whole into the output of its own group and nowhere else -/
+theorem c19_concat_grouped (fs : List (Option Nat × List Nat)) :
+    (concatGrouped fs).1 = concatFiles (ofGroup fs none) ∧
+    ∀ t, (concatGrouped fs).2.lookup t =
+      if ofGroup fs (some t) = [] then none else some (concatFiles (ofGroup fs (some t))) := by
+  obtain ⟨h1, h2⟩ := concatLoop_spec fs [] []
+  refine ⟨by simpa [concatGrouped] using h1, ?_⟩
+  intro t
+  have := h2 t
+  simpa [concatGrouped] using this
+
+example : concatGrouped [(none, [1]), (some 7, [2]), (none, [3]), (some 8, [4]), (some 7, [5])] =
+    ([1, 10, 3, 10], [(7, [2, 10, 5, 10]), (8, [4, 10])]) := by decide
+
 /-- instances: the documented 2 x 3 example, an empty stream, exact multiples, the empty file -/
 example : combine [["a", "b"], ["1", "2", "3"]] = [["a", "a", "a", "b", "b", "b"], ["1", "2", "3", "1", "2", "3"]] := by decide
 example : combine [["a", "b"], ([] : List String), ["x"]] = [[], [], []] := by decide
@@ -186,3 +280,10 @@ end SciVerif.Comp
 #print axioms SciVerif.Comp.scanLines_render
 #print axioms SciVerif.Comp.c19_scanlines_roundtrip
 #print axioms SciVerif.Comp.c19_concat
+#print axioms SciVerif.Comp.lookup_addTo_same
+#print axioms SciVerif.Comp.lookup_addTo_other
+#print axioms SciVerif.Comp.ofGroup_cons_eq
+#print axioms SciVerif.Comp.ofGroup_cons_ne
+#print axioms SciVerif.Comp.concatFiles_cons
+#print axioms SciVerif.Comp.concatLoop_spec
+#print axioms SciVerif.Comp.c19_concat_grouped
